@@ -35,6 +35,7 @@ type Thread struct {
 	nameHash uint64
 	lastH    uint64
 	nev      int
+	daemon   bool // model-internal thread (a timer's firing): never reported as parked
 }
 
 // Ev is a harness-visible event (call/return/observation marker) in the global log.
@@ -330,7 +331,19 @@ func (x *Exec) pick() *Thread {
 			continue
 		}
 		if x.sc.TimerDev {
+			// A time.Timer's firing is done by the runtime when it processes its timers, in due order: the
+			// clock is never moved past the due time of an armed timer that has not fired yet (waking a
+			// sleeping goroutine late is a scheduling matter, sending a timer's value late is not).
+			var firstTimer int64
 			for _, t := range x.order {
+				if t.daemon && !t.done && t.op != nil && t.op.due > 0 && (firstTimer == 0 || t.op.due < firstTimer) {
+					firstTimer = t.op.due
+				}
+			}
+			for _, t := range x.order {
+				if firstTimer > 0 && t.op != nil && t.op.due > firstTimer {
+					continue
+				}
 				if !t.done && t.op != nil && t.op.due > x.clock && t.op.due-x.clock <= idle && (x.sc.Horizon == 0 || t.op.due <= x.sc.Horizon) && !x.isReady(t) {
 					c := int32(1)
 					if x.sc.Delay {
@@ -523,7 +536,7 @@ func runOne(sc *Scenario, prefix []int32, tracing bool, bound int, cache map[uin
 	<-x.finished
 	res := &Result{Events: x.events, Panics: x.panics, Clock: x.clock, Steps: x.steps, Cap: x.capHit, InvFail: x.invFail}
 	for _, t := range x.order {
-		if !t.done {
+		if !t.done && !t.daemon {
 			d := "not started"
 			if t.op != nil {
 				d = t.op.desc
